@@ -196,17 +196,17 @@ def AExpr.WF (rank dl : Nat) : AExpr R → Prop
   | .arr v => v.strides.length = v.dims.length ∧ (v.dims = [] ∨ v.dims.length = rank)
   | .idx v rix => rix.length = rank ∧ v.strides.length = rank ∧ (rix.headD []).length = dl
   | .const _ => True
-  | .add a b | .sub a b | .mul a b | .div a b => a.WF rank dl ∧ b.WF rank dl
-  | .neg a | .noalias a => a.WF rank dl
+  | .add a b | .sub a b | .mul a b | .div a b | .max a b | .min a b => a.WF rank dl ∧ b.WF rank dl
+  | .neg a | .noalias a | .abs a => a.WF rank dl
 
 theorem setLoc_length (e : AExpr R) (ri : List Nat) : (e.setLoc ri).length = e.nArrays := by
   induction e with
   | arr v => simp only [AExpr.setLoc, AExpr.nArrays]; split <;> simp
   | idx v rix => simp [AExpr.setLoc, AExpr.nArrays]
   | const x => rfl
-  | add a b iha ihb | sub a b iha ihb | mul a b iha ihb | div a b iha ihb =>
+  | add a b iha ihb | sub a b iha ihb | mul a b iha ihb | div a b iha ihb | max a b iha ihb | min a b iha ihb =>
     simp [AExpr.setLoc, AExpr.nArrays, iha, ihb]
-  | neg a ih | noalias a ih => simpa [AExpr.setLoc, AExpr.nArrays] using ih
+  | neg a ih | noalias a ih | abs a ih => simpa [AExpr.setLoc, AExpr.nArrays] using ih
 
 theorem View.rstrides_length (v : View) : v.rstrides.length = v.strides.length := by simp [View.rstrides]
 
@@ -241,10 +241,10 @@ theorem atLoc_setLoc (e : AExpr R) (rank dl : Nat) (hr : 0 < rank) (hw : e.WF ra
         rw [Int.mul_comm]
         omega
   | const x => rfl
-  | add a b iha ihb | sub a b iha ihb | mul a b iha ihb | div a b iha ihb =>
+  | add a b iha ihb | sub a b iha ihb | mul a b iha ihb | div a b iha ihb | max a b iha ihb | min a b iha ihb =>
     simp only [AExpr.atLoc, AExpr.setLoc, AExpr.at]
     rw [List.take_left' (setLoc_length a _), List.drop_left' (setLoc_length a _), iha hw.1, ihb hw.2]
-  | neg a ih | noalias a ih =>
+  | neg a ih | noalias a ih | abs a ih =>
     simp only [AExpr.atLoc, AExpr.setLoc, AExpr.at]; rw [ih hw]
 
 /-- `advance_location_` after `set_location_(j, r)` is `set_location_(j+1, r)` while the row lasts -/
@@ -280,10 +280,10 @@ theorem advLoc_setLoc (e : AExpr R) (rank dl : Nat) (hr : 0 < rank) (hw : e.WF r
     rw [this]
     simp
   | const x => rfl
-  | add a b iha ihb | sub a b iha ihb | mul a b iha ihb | div a b iha ihb =>
+  | add a b iha ihb | sub a b iha ihb | mul a b iha ihb | div a b iha ihb | max a b iha ihb | min a b iha ihb =>
     simp only [AExpr.advLoc, AExpr.setLoc]
     rw [List.take_left' (setLoc_length a _), List.drop_left' (setLoc_length a _), iha hw.1, ihb hw.2]
-  | neg a ih | noalias a ih =>
+  | neg a ih | noalias a ih | abs a ih =>
     simp only [AExpr.advLoc, AExpr.setLoc]; rw [ih hw]
 
 /-- in the `++index` branch every array has innermost stride 1, so incrementing all locations is `advance_location_` -/
@@ -306,7 +306,7 @@ theorem contig_advLoc (e : AExpr R) (l : List Int) (hc : e.contig = true) (hl : 
       | [x], _ => simp
   | idx v rix => simp [AExpr.contig] at hc
   | const x => simp only [AExpr.nArrays] at hl; simp [AExpr.advLoc, List.length_eq_zero_iff.mp hl]
-  | add a b iha ihb | sub a b iha ihb | mul a b iha ihb | div a b iha ihb =>
+  | add a b iha ihb | sub a b iha ihb | mul a b iha ihb | div a b iha ihb | max a b iha ihb | min a b iha ihb =>
     simp only [AExpr.contig, Bool.and_eq_true] at hc
     simp only [AExpr.nArrays] at hl
     simp only [AExpr.advLoc]
@@ -315,6 +315,7 @@ theorem contig_advLoc (e : AExpr R) (l : List Int) (hc : e.contig = true) (hl : 
     simp only [AExpr.contig] at hc
     simp only [AExpr.nArrays] at hl
     simp only [AExpr.advLoc]; exact ih _ hc hl
+  | abs a ih => simp [AExpr.contig] at hc
 
 /-- both branches of `assign_expression_` step the locations identically -/
 theorem next_setLoc (e : AExpr R) (rank dl : Nat) (hr : 0 < rank) (hw : e.WF rank dl) (j : Nat) (r : List Nat)
@@ -385,7 +386,7 @@ end MemFacts
 
 /-! ### the statement loops -/
 section Loops
-variable {R : Type} [Zero R] [Add R] [Sub R] [Mul R] [Div R] [Neg R] [One R]
+variable {R : Type} [Zero R] [Add R] [Sub R] [Mul R] [Div R] [Neg R] [One R] [LT R] [DecidableLT R]
 
 /-- the innermost loop of `assign_expression_` (either branch) is the scalar statements of the row, in order -/
 theorem assignRow_eq (t : View) (e : AExpr R) (rank dl : Nat) (sl : Int) (hr : 0 < rank)
@@ -418,10 +419,10 @@ theorem assignRow_eq (t : View) (e : AExpr R) (rank dl : Nat) (sl : Int) (hr : 0
         rw [h3, Int.natCast_add, Int.add_mul]; simp; omega
   exact (key dl (Nat.le_refl _)).1
 
-theorem runS_some (s : St R) [LT R] [DecidableLT R] (g : SMask R) (c : Cell) (x : SExpr R) :
+theorem runS_some (s : St R) (g : SMask R) (c : Cell) (x : SExpr R) :
     runS s ⟨some g, c, x⟩ = if g.eval s.mem then elemStep s c x else s := rfl
 
-theorem runS_none (s : St R) [LT R] [DecidableLT R] (c : Cell) (x : SExpr R) : runS s ⟨none, c, x⟩ = elemStep s c x := rfl
+theorem runS_none (s : St R) (c : Cell) (x : SExpr R) : runS s ⟨none, c, x⟩ = elemStep s c x := rfl
 
 /-- rows × innermost loop = positions of the index order -/
 theorem rows_inner_eq_flat {σ : Type} (F : σ → List Nat → σ) (dl : Nat) (rd : List Nat) (hdl : 0 < dl) (s : σ) :
@@ -438,7 +439,7 @@ theorem rows_inner_eq_flat {σ : Type} (F : σ → List Nat → σ) (dl : Nat) (
   simp only [unflatR, e1, e2]
 
 /-- rows of scalar statements, each row at its memory index, are the denoted program -/
-theorem rows_elem_eq_denote [LT R] [DecidableLT R] (t : View) (e : AExpr R) (dl : Nat) (sl : Int) (rd : List Nat)
+theorem rows_elem_eq_denote (t : View) (e : AExpr R) (dl : Nat) (sl : Int) (rd : List Nat)
     (rs : List Int) (hrd : t.rdims = dl :: rd) (hrs : t.rstrides = sl :: rs) (hdl : 0 < dl) (s : St R) :
     (List.range (prod rd)).foldl (fun s k => (List.range dl).foldl (fun s (j : Nat) =>
         elemStep s (t.sid, t.off + dotR (unflatR rd k) rs + (j : Int) * sl) (e.at (j :: unflatR rd k))) s) s =
@@ -460,7 +461,7 @@ theorem rows_elem_eq_denote [LT R] [DecidableLT R] (t : View) (e : AExpr R) (dl 
   rfl
 
 /-- `assign_expression_<Rank,true,true>` records and stores exactly what the scalar loop over the index order does -/
-theorem assignActive_eq [LT R] [DecidableLT R] (t : View) (e : AExpr R) (dl : Nat) (sl : Int) (rd : List Nat) (rs : List Int)
+theorem assignActive_eq (t : View) (e : AExpr R) (dl : Nat) (sl : Int) (rd : List Nat) (rs : List Int)
     (hrd : t.rdims = dl :: rd) (hrs : t.rstrides = sl :: rs) (hlen : rs.length = rd.length)
     (hpos : AllPos (dl :: rd)) (hw : e.WF (rd.length + 1) dl) (s : St R) :
     assignActive t e s = runProg s (denoteAssign t e) := by
@@ -481,10 +482,10 @@ theorem at_grad_passive (e : AExpr R) (m : Mem R) (h : e.isActive m.isActive = f
   | arr v => simp only [AExpr.isActive] at h; simp [AExpr.at, SExpr.grad, h]
   | idx v rix => simp only [AExpr.isActive] at h; simp [AExpr.at, SExpr.grad, h]
   | const x => rfl
-  | add a b iha ihb | sub a b iha ihb | mul a b iha ihb | div a b iha ihb =>
+  | add a b iha ihb | sub a b iha ihb | mul a b iha ihb | div a b iha ihb | max a b iha ihb | min a b iha ihb =>
     simp only [AExpr.isActive, Bool.or_eq_false_iff] at h
-    simp only [AExpr.at, SExpr.grad, iha h.1, ihb h.2, List.append_nil]
-  | neg a ih | noalias a ih =>
+    simp only [AExpr.at, SExpr.grad, iha h.1, ihb h.2, List.append_nil, ite_self]
+  | neg a ih | noalias a ih | abs a ih =>
     simp only [AExpr.isActive] at h
     simp only [AExpr.at, SExpr.grad, ih h]
 
@@ -586,7 +587,7 @@ theorem foldl_inv_congr {α β : Type} (P : α → Prop) (f g : α → β → α
     exact ih _ h2
 
 /-- `assign_expression_<Rank,true,false>` (passive right-hand side, `push_lhs_range` per row) -/
-theorem assignPassive_eq [LT R] [DecidableLT R] (t : View) (e : AExpr R) (dl : Nat) (sl : Int) (rd : List Nat) (rs : List Int)
+theorem assignPassive_eq (t : View) (e : AExpr R) (dl : Nat) (sl : Int) (rd : List Nat) (rs : List Int)
     (hrd : t.rdims = dl :: rd) (hrs : t.rstrides = sl :: rs) (hlen : rs.length = rd.length)
     (hpos : AllPos (dl :: rd)) (hw : e.WF (rd.length + 1) dl) (s : St R)
     (g0 : Nat) (hsto : (s.mem.sto? t.sid).map (·.gbase) = some g0) (hpass : e.isActive s.mem.isActive = false) :
@@ -605,7 +606,7 @@ theorem assignPassive_eq [LT R] [DecidableLT R] (t : View) (e : AExpr R) (dl : N
   exact ⟨r1, by rw [r2, ha1], r3⟩
 
 /-- `Array::operator=(const Active&)`: every element gets `d[elem] = 1·d[scalar]` -/
-theorem assignScalar_eq [LT R] [DecidableLT R] (t : View) (c : Cell) (dl : Nat) (sl : Int) (rd : List Nat) (rs : List Int)
+theorem assignScalar_eq (t : View) (c : Cell) (dl : Nat) (sl : Int) (rd : List Nat) (rs : List Int)
     (hrd : t.rdims = dl :: rd) (hrs : t.rstrides = sl :: rs) (hlen : rs.length = rd.length)
     (hpos : AllPos (dl :: rd)) (s : St R) :
     assignScalar t c s = runProg s (denoteAssign t (.arr ⟨c.1, c.2, [], []⟩)) := by
@@ -637,7 +638,6 @@ theorem assignScalar_eq [LT R] [DecidableLT R] (t : View) (c : Cell) (dl : Nat) 
 
 /-! ### conditional assignment -/
 section Where
-variable [LT R] [DecidableLT R]
 
 def AMask.WF (rank dl : Nat) (k : AMask R) : Prop := k.a.WF rank dl ∧ k.b.WF rank dl
 
@@ -804,7 +804,7 @@ theorem dotR_zero_strides (ri : List Nat) (l : List Nat) : dotR ri (l.map (fun _
     | cons d ds => simp only [List.map_cons, dotR, ih ds]; simp
 
 /-- `T(ix…) = expr` -/
-theorem idxAssign_eq [LT R] [DecidableLT R] (t : View) (rix : List (List Nat)) (e : AExpr R) (ix0 : List Nat)
+theorem idxAssign_eq (t : View) (rix : List (List Nat)) (e : AExpr R) (ix0 : List Nat)
     (ixs : List (List Nat)) (s0 : Int) (ss : List Int) (hrix : rix = ix0 :: ixs) (hrs : t.rstrides = s0 :: ss)
     (hpos : AllPos (rix.map (·.length))) (hw : e.WF rix.length ix0.length) (s : St R) :
     idxAssign t rix e s = runProg s (denoteIdx t rix e) := by
@@ -823,6 +823,20 @@ theorem idxAssign_eq [LT R] [DecidableLT R] (t : View) (rix : List (List Nat)) (
   rw [rows_inner_eq_flat (fun s ri => elemStep s (t.cellAt (xlate rix ri)) (e.at ri)) ix0.length _ hpos.head]
   rfl
 
+/-- `diag_vector(expr, k)`: every element is positioned by its own `set_location`, so the loop is the scalar
+    statements `v[j] = expr[i(j)]` in order -/
+theorem diagVector_eq (e : AExpr R) (d0 d1 : Nat) (k : Int) (res : View) (dl : Nat) (hw : e.WF 2 dl) (s : St R) :
+    diagVector e d0 d1 k res s = runProg s (denoteDiag e d0 d1 k res) := by
+  unfold diagVector runProg denoteDiag
+  rw [List.foldl_map]
+  congr 1
+  funext s j
+  have hix : ∃ a r, diagIx k j = a :: r := by
+    unfold diagIx; split <;> exact ⟨_, _, rfl⟩
+  obtain ⟨a, r, h⟩ := hix
+  rw [h, atLoc_setLoc e 2 dl (by decide) hw]
+  rfl
+
 end Loops
 
 theorem dotR_append (a b : List Nat) (u w : List Int) (h : a.length = u.length) :
@@ -839,6 +853,153 @@ theorem dotR_append (a b : List Nat) (u w : List Int) (h : a.length = u.length) 
       simp only [List.cons_append, dotR]
       rw [ih u (by simpa using h)]
       omega
+
+/-! ### the odometer of `reduce_dimension` visits the strips in index order of the result -/
+
+theorem unflatR_length (rd : List Nat) (p : Nat) : (unflatR rd p).length = rd.length := by
+  induction rd generalizing p with
+  | nil => rfl
+  | cons d ds ih => simp [unflatR, ih]
+
+theorem advBoth_unflat (ds : List Nat) (hp : AllPos ds) (p : Nat) (hlt : p < prod ds) :
+    advBoth ds (unflatR ds p) (unflatR ds p) =
+      if p + 1 < prod ds then (unflatR ds (p + 1), unflatR ds (p + 1), false)
+      else (zeros ds.length, zeros ds.length, true) := by
+  induction ds generalizing p with
+  | nil =>
+    simp [prod] at hlt
+    subst hlt
+    simp [advBoth, unflatR, prod, zeros]
+  | cons d ds ih =>
+    have hd : 0 < d := hp.head
+    have hps : 0 < prod ds := prod_pos hp.tail
+    have hprod : prod (d :: ds) = d * prod ds := rfl
+    rw [hprod] at hlt
+    have hml := Nat.mod_lt p hd
+    simp only [unflatR, advBoth]
+    have hq : p / d < prod ds := by
+      rw [Nat.div_lt_iff_lt_mul hd, Nat.mul_comm]; exact hlt
+    by_cases hw : p % d + 1 ≥ d
+    · rw [if_pos hw]
+      obtain ⟨e1, e2⟩ := succ_mod_wrap hd hw
+      rw [ih hp.tail (p / d) hq]
+      have hpd := Nat.div_add_mod p d
+      by_cases hn : p / d + 1 < prod ds
+      · have : p + 1 < d * prod ds := by
+          have h5 : d * (p / d + 2) ≤ d * prod ds := Nat.mul_le_mul_left d (by omega)
+          rw [Nat.mul_add] at h5
+          omega
+        rw [if_pos hn, if_pos (by rw [hprod]; exact this), e1, e2]
+      · have h3 : p / d + 1 = prod ds := by omega
+        have : ¬ (p + 1 < d * prod ds) := by
+          rw [← h3, Nat.mul_add, Nat.mul_one]; omega
+        rw [if_neg hn, if_neg (by rw [hprod]; exact this)]
+        simp [zeros, List.replicate_succ]
+    · rw [if_neg hw]
+      have hw' : p % d + 1 < d := by omega
+      obtain ⟨e1, e2⟩ := succ_mod_lt hd hw'
+      have : p + 1 < d * prod ds := by
+        have hpd := Nat.div_add_mod p d
+        have h5 : d * (p / d + 1) ≤ d * prod ds := Nat.mul_le_mul_left d (by omega)
+        rw [Nat.mul_add, Nat.mul_one] at h5
+        omega
+      rw [if_pos (by rw [hprod]; exact this), e1, e2]
+
+theorem insertAt_zero (rj : List Nat) (i : Nat) : insertAt rj 0 i = i :: rj := by simp [insertAt]
+
+theorem insertAt_succ (x : Nat) (rj : List Nat) (k i : Nat) : insertAt (x :: rj) (k + 1) i = x :: insertAt rj k i := by
+  simp [insertAt]
+
+/-- the removed-dimension extents: `rd` without position `k` -/
+def dropAt (rd : List Nat) (k : Nat) : List Nat := rd.take k ++ rd.drop (k + 1)
+
+theorem dropAt_zero (d : Nat) (ds : List Nat) : dropAt (d :: ds) 0 = ds := by simp [dropAt]
+theorem dropAt_succ (d : Nat) (ds : List Nat) (k : Nat) : dropAt (d :: ds) (k + 1) = d :: dropAt ds k := by simp [dropAt]
+
+theorem dropAt_length (rd : List Nat) (k : Nat) (hk : k < rd.length) : (dropAt rd k).length = rd.length - 1 := by
+  simp [dropAt]; omega
+
+theorem AllPos.dropAt {rd : List Nat} (h : AllPos rd) (k : Nat) : AllPos (dropAt rd k) := by
+  intro d hd
+  simp only [Adept.ArrayAD.dropAt, List.mem_append] at hd
+  cases hd with
+  | inl hd => exact h d (List.mem_of_mem_take hd)
+  | inr hd => exact h d (List.mem_of_mem_drop hd)
+
+theorem advStrip_unflat (rd : List Nat) (k : Nat) (hp : AllPos rd) (hk : k < rd.length) (p : Nat)
+    (hlt : p < prod (dropAt rd k)) :
+    advStrip rd k (insertAt (unflatR (dropAt rd k) p) k 0) (unflatR (dropAt rd k) p) =
+      if p + 1 < prod (dropAt rd k) then
+        (insertAt (unflatR (dropAt rd k) (p + 1)) k 0, unflatR (dropAt rd k) (p + 1), false)
+      else (insertAt (zeros (dropAt rd k).length) k 0, zeros (dropAt rd k).length, true) := by
+  induction k generalizing rd p with
+  | zero =>
+    cases rd with
+    | nil => simp at hk
+    | cons d ds =>
+      rw [dropAt_zero] at hlt ⊢
+      simp only [insertAt_zero, advStrip]
+      rw [advBoth_unflat ds hp.tail p hlt]
+      split <;> rfl
+  | succ k ih =>
+    cases rd with
+    | nil => simp at hk
+    | cons d ds =>
+      have hk' : k < ds.length := by simpa using hk
+      have hd : 0 < d := hp.head
+      rw [dropAt_succ] at hlt ⊢
+      have hps : 0 < prod (dropAt ds k) := prod_pos (hp.tail.dropAt k)
+      have hprod : prod (d :: dropAt ds k) = d * prod (dropAt ds k) := rfl
+      rw [hprod] at hlt
+      have hml := Nat.mod_lt p hd
+      simp only [unflatR, insertAt_succ, advStrip]
+      have hq : p / d < prod (dropAt ds k) := by
+        rw [Nat.div_lt_iff_lt_mul hd, Nat.mul_comm]; exact hlt
+      by_cases hw : p % d + 1 ≥ d
+      · rw [if_pos hw]
+        obtain ⟨e1, e2⟩ := succ_mod_wrap hd hw
+        rw [ih ds hp.tail hk' (p / d) hq]
+        have hpd := Nat.div_add_mod p d
+        by_cases hn : p / d + 1 < prod (dropAt ds k)
+        · have : p + 1 < d * prod (dropAt ds k) := by
+            have h5 : d * (p / d + 2) ≤ d * prod (dropAt ds k) := Nat.mul_le_mul_left d (by omega)
+            rw [Nat.mul_add] at h5
+            omega
+          rw [if_pos hn, if_pos (by rw [hprod]; exact this), e1, e2]
+        · have h3 : p / d + 1 = prod (dropAt ds k) := by omega
+          have : ¬ (p + 1 < d * prod (dropAt ds k)) := by
+            rw [← h3, Nat.mul_add, Nat.mul_one]; omega
+          rw [if_neg hn, if_neg (by rw [hprod]; exact this)]
+          simp [zeros, List.replicate_succ, insertAt_succ]
+      · rw [if_neg hw]
+        have hw' : p % d + 1 < d := by omega
+        obtain ⟨e1, e2⟩ := succ_mod_lt hd hw'
+        have : p + 1 < d * prod (dropAt ds k) := by
+          have hpd := Nat.div_add_mod p d
+          have h5 : d * (p / d + 1) ≤ d * prod (dropAt ds k) := Nat.mul_le_mul_left d (by omega)
+          rw [Nat.mul_add, Nat.mul_one] at h5
+          omega
+        rw [if_pos (by rw [hprod]; exact this), e1, e2]
+
+theorem insertAt_set (rj : List Nat) (k x : Nat) (hk : k ≤ rj.length) : (insertAt rj k 0).set k x = insertAt rj k x := by
+  induction k generalizing rj with
+  | zero => simp [insertAt_zero]
+  | succ k ih =>
+    cases rj with
+    | nil => simp at hk
+    | cons y r =>
+      rw [insertAt_succ, insertAt_succ, List.set_cons_succ, ih r (by simpa using hk)]
+
+theorem zeros_insertAt (n k : Nat) (hk : k ≤ n) : insertAt (zeros n) k 0 = zeros (n + 1) := by
+  induction k generalizing n with
+  | zero => simp [insertAt_zero, zeros, List.replicate_succ]
+  | succ k ih =>
+    cases n with
+    | zero => omega
+    | succ n =>
+      have : zeros (n + 1) = 0 :: zeros n := by simp [zeros, List.replicate_succ]
+      rw [this, insertAt_succ, ih n (by omega)]
+      simp [zeros, List.replicate_succ]
 
 /-! ### targets -/
 
